@@ -46,4 +46,29 @@ def writeArgs (lead : Nat → Nat) : List (List UInt8) → List UInt8
 def writeCmd (lead : Nat → Nat) (cmd : List (List UInt8)) : List UInt8 :=
   writeN lead 42 cmd.length ++ writeArgs lead cmd
 
+/-! ### the caller's slice
+
+`cmd` is the `[]string` of the `Completed` command, shared with the caller: the same slice is
+written again on a retry, a MOVED/ASK redirect or when a pinned command is reused. The
+functions below also return the slice as it is after the call; `writeCmd` never assigns to
+`cmd[i]` (the in-code TODO about releasing arguments eagerly is not implemented). -/
+
+/-- the argument loop, returning the bytes written and the slice elements afterwards -/
+def writeArgsSt (lead : Nat → Nat) : List (List UInt8) → List UInt8 × List (List UInt8)
+  | [] => ([], [])
+  | a :: as =>
+    let r := writeArgsSt lead as
+    (writeB lead 36 a ++ r.1, a :: r.2)       -- `cmd[i]` is left as it is
+
+/-- `writeCmd(o, cmd)`: bytes written and `cmd` afterwards -/
+def writeCmdSt (lead : Nat → Nat) (cmd : List (List UInt8)) : List UInt8 × List (List UInt8) :=
+  let r := writeArgsSt lead cmd
+  (writeN lead 42 cmd.length ++ r.1, r.2)
+
+/-- the same slice written twice (retry / redirect / reuse): all bytes, and the slice afterwards -/
+def writeTwice (lead : Nat → Nat) (cmd : List (List UInt8)) : List UInt8 × List (List UInt8) :=
+  let r1 := writeCmdSt lead cmd
+  let r2 := writeCmdSt lead r1.2
+  (r1.1 ++ r2.1, r2.2)
+
 end Rv.WriteCmd
